@@ -95,8 +95,8 @@ package grpcgcp
 //@ mono gcpBalancer.mu [C09.list-prefix] := forall i, x in old(this.scRefList) :: i < len(this.scRefList) && this.scRefList[i] == x
 //@ spec aggOf(r int, c int) := ite(r > 0, connectivity.Ready, ite(c > 0, connectivity.Connecting, connectivity.TransientFailure))
 //@ inv gcpBalancer.mu I7 [C04] := $pubCount > 0 ==> this.state == aggOf(this.csEvltr.numReady, this.csEvltr.numConnecting)
-//@ inv gcpBalancer.mu I12 [C04] := $pubCount > 0 ==> $lastState == this.state && $lastPicker == this.picker
-//@ inv gcpBalancer.mu I10p [C04] := $pubCount > 0 ==> ((this.state == connectivity.TransientFailure) == (this.picker is *errPicker && this.picker.(*errPicker).err == balancer.ErrTransientFailure)) && (this.state != connectivity.TransientFailure ==> this.picker is *gcpPicker)
+//@ inv gcpBalancer.mu I12 [C04 C01] := $pubCount > 0 ==> $lastState == this.state && $lastPicker == this.picker
+//@ inv gcpBalancer.mu I10p [C04 C01] := $pubCount > 0 ==> ((this.state == connectivity.TransientFailure) == (this.picker is *errPicker && this.picker.(*errPicker).err == balancer.ErrTransientFailure)) && (this.state != connectivity.TransientFailure ==> this.picker is *gcpPicker)
 //@ inv gcpBalancer.mu I14p [C04] := $pubCount >= 0
 
 // ---------------------------------------------------------------- balancer
@@ -138,7 +138,7 @@ package grpcgcp
 //@   requires sc != nil
 // gRPC reports SHUTDOWN only for a connection the balancer has removed; the size bound (only) relies on it
 //@   envassume [C03.assume-shutdown-only-removed] scs.ConnectivityState == connectivity.Shutdown ==> !(sc in gb.scRefs)
-//@   ensures [C04.publish-on-change] (old(sc in gb.scStates) || (old(sc in gb.refreshingScRefs) && scs.ConnectivityState == connectivity.Ready)) && (((scs.ConnectivityState == connectivity.Ready) != (oldStateOf(gb, sc) == connectivity.Ready)) || ((gb.state == connectivity.TransientFailure) != (old(gb.state) == connectivity.TransientFailure))) ==> $pubCount > old($pubCount)
+//@   ensures [C04,C01 publish-on-change] (old(sc in gb.scStates) || (old(sc in gb.refreshingScRefs) && scs.ConnectivityState == connectivity.Ready)) && (((scs.ConnectivityState == connectivity.Ready) != (oldStateOf(gb, sc) == connectivity.Ready)) || ((gb.state == connectivity.TransientFailure) != (old(gb.state) == connectivity.TransientFailure))) ==> $pubCount > old($pubCount)
 //@   ensures [C04.unknown-ignored] !old(sc in gb.scStates) && !old(sc in gb.refreshingScRefs) ==> $pubCount == old($pubCount) && gb.state == old(gb.state) && gb.picker == old(gb.picker) && gb.csEvltr.numReady == old(gb.csEvltr.numReady)
 //@   ensures [C01.frame] scs.ConnectivityState != connectivity.Shutdown ==> homeFrame(gb)
 //@   ensures [C01.frame-shutdown] scs.ConnectivityState == connectivity.Shutdown ==> forall K string :: {K in gb.affinityMap} old(home(gb, K)) != old(gb.scRefs[sc]) ==> home(gb, K) == old(home(gb, K))
